@@ -189,6 +189,37 @@ fn craft_shared_length_file(r: &mut Rng) -> (Vec<u8>, Vec<(u32, Vec<u8>)>) {
     f.extend_from_slice(format!("trailer\n<</Size {}/Root 1 0 R>>\nstartxref\n{}\n%%EOF", offs.len() + 1, x).as_bytes());
     (f, want)
 }
+/// the same with object streams among the sharers: an object stream whose shared Length is not resolved while it
+/// is parsed has no content at that moment and loses its members
+fn craft_shared_length_objstm_file(r: &mut Rng) -> Vec<u8> {
+    let k = 1 + r.usize(30);
+    let content = b"50 0 77".to_vec(); let len = content.len();
+    let mut f = b"%PDF-1.5\n".to_vec(); let mut offs: Vec<(u32, usize)> = vec![];
+    offs.push((1, f.len())); f.extend_from_slice(b"1 0 obj\n<</Type/Catalog>>\nendobj\n");
+    offs.push((2, f.len())); f.extend_from_slice(format!("2 0 obj\n{}\nendobj\n", len).as_bytes());
+    let container = 3 + k as u32;
+    let place = r.usize(k + 1);     // the object stream sits at a random position among the plain sharers (numbers follow file order)
+    let mut num = 3u32;
+    for i in 0..=k {
+        offs.push((num, f.len()));
+        if i == place {
+            f.extend_from_slice(format!("{} 0 obj\n<</Type/ObjStm/N 1/First 5/Length 2 0 R>>\nstream\n", num).as_bytes()); f.extend_from_slice(&content);
+        } else {
+            f.extend_from_slice(format!("{} 0 obj\n<</Length 2 0 R>>\nstream\n", num).as_bytes()); f.extend((0..len).map(|_| b'a' + r.below(26) as u8));
+        }
+        f.extend_from_slice(b"\nendstream\nendobj\n");
+        num += 1;
+    }
+    let _ = container;
+    let cnum = 3 + place as u32;
+    let xnum = num; let xoff = f.len(); offs.push((xnum, xoff));
+    let mut rows: Vec<u8> = vec![]; let mut index_arr = String::new();
+    for (n, o) in &offs { rows.push(1); rows.extend_from_slice(&(*o as u16).to_be_bytes()); rows.extend_from_slice(&0u16.to_be_bytes()); index_arr.push_str(&format!("{} 1 ", n)); }
+    rows.push(2); rows.extend_from_slice(&(cnum as u16).to_be_bytes()); rows.extend_from_slice(&0u16.to_be_bytes()); index_arr.push_str("50 1");
+    f.extend_from_slice(format!("{} 0 obj\n<</Type/XRef/Size 60/W[1 2 2]/Index[{}]/Root 1 0 R/Length {}>>\nstream\n", xnum, index_arr, rows.len()).as_bytes());
+    f.extend_from_slice(&rows); f.extend_from_slice(format!("\nendstream\nendobj\nstartxref\n{}\n%%EOF", xoff).as_bytes());
+    f
+}
 fn load_with_zero(bytes: &[u8], k: Option<usize>) -> Result<String, String> {
     *ZERO_ORDER.lock().unwrap() = k;
     let r = guard(|| Document::load_mem(bytes));
@@ -344,6 +375,16 @@ run in the no-default-features (sequential) build. Non-trivial = file with >= 2 
             Err((site, msg)) => c.oracle_fail(&format!("panic@{}", site), &msg, json!({"file": hex(&file)})),
         }
         if i % 4 == 0 { order_independent(c, &file, "shared_length", &mut pool_loads); } else { c.corr(format!("load {}", hex_tok(&file)), load_reply(&file)); }
+    }
+    for i in 0..c.n(40, 400) {
+        let Some(mut r) = c.case("shared_length_objstm", i) else { continue };
+        let file = craft_shared_length_objstm_file(&mut r);
+        match guard(|| Document::load_mem(&file)) {
+            Ok(Ok(d)) => if !matches!(d.objects.get(&(50, 0)), Some(Object::Integer(77))) { c.oracle_fail("shared-length", "the member of an object stream that shares its Length object with other streams is not loaded", json!({"file": hex(&file)})); },
+            Ok(Err(e)) => c.oracle_fail("load-error", &format!("shared_length_objstm: {:?}", e), json!({"file": hex(&file)})),
+            Err((site, msg)) => c.oracle_fail(&format!("panic@{}", site), &msg, json!({"file": hex(&file)})),
+        }
+        if i % 4 == 0 { order_independent(c, &file, "shared_length_objstm", &mut pool_loads); } else { c.corr(format!("load {}", hex_tok(&file)), load_reply(&file)); }
     }
     c.extra.insert("completion_orders_run".into(), json!(zero_run));
     // ---- witness F-C08-a: the same number in two containers -> two orders, two documents
